@@ -229,6 +229,42 @@ func GenC02(rng *rand.Rand, thorough bool, emit func(*Sx)) {
 			}
 		}
 	}
+	// message after message refused by the backend (or over the limit): each final reply ends its own
+	// transaction and nothing else - the command behind the last end marker is executed
+	for _, m := range modes {
+		for _, how := range []string{"reject", "toolarge", "mixed"} {
+			for _, nmsg := range []int{4, 6} {
+				cfg := DefaultCfg()
+				cfg.LMTP, cfg.LMTPSession = m.lmtp, m.sess
+				if how != "reject" {
+					cfg.MaxBytes = 8
+				}
+				f := newF(cfg)
+				f.hello()
+				for i := 0; i < nmsg; i++ {
+					f.cmd(fmt.Sprintf("MAIL FROM:<s%d@ok>", i), 250)
+					f.cmd("RCPT TO:<r0@ok>", 250)
+					f.cmd("DATA", 354)
+					p := DefaultPlan()
+					code := 550
+					switch {
+					case how == "reject" || (how == "mixed" && i%2 == 0):
+						p.Ret = rejectErr()
+						f.raw("short\r\n.\r\n")
+					default:
+						f.raw("a message that is longer than eight octets\r\n.\r\n")
+						code = 552
+					}
+					f.script.Data = append(f.script.Data, p)
+					f.expect(code)
+				}
+				f.cmd("MAIL FROM:<after@ok>", 250)
+				f.cmd("QUIT", 221)
+				f.add(L(A("must-mail"), XS("after@ok")))
+				emit(RunConv(f.caseOf("C02", segStream(rng, f.out, f.cuts, nmsg%3, rawEOF))))
+			}
+		}
+	}
 	// a very large message the backend does not read (refuses at once / reads a few octets / stops at the
 	// size limit): however much is left, it is skipped up to the end marker and never run as commands
 	for mi, m := range modes {
